@@ -163,12 +163,15 @@ def check_fit(case):
     return out, "ok"
 
 
+PERM_ALL = 6
+
+
 def fit_cases():
     cases = []
     for name, (xs, ys) in DATASETS.items():
         n = len(xs)
         ident = list(range(n))
-        if n <= 6:
+        if n <= PERM_ALL:
             perms = [list(p) for p in itertools.permutations(ident)]
         else:
             step = max(1, n // 20)
@@ -369,6 +372,8 @@ def run_degenerate(block, ctx):
 
 
 def clauses(tier):
+    global PERM_ALL
+    PERM_ALL = 7 if tier == "thorough" else 6
     return [
         Clause("fits", chunks(fit_cases(), 64), run_fits,
                lambda c: [m for _, m, _ in check_fit(c)[0]], floor=2000),
